@@ -11,26 +11,22 @@
              key value -> row id, only for rows whose key is not NULL;
      nextid  next_row_id.
 
-   `fx = false` is the code AS IT IS:
-     * DELETE / UPDATE collect their rows with a cursor over ALL entries and never look at
-       DELETE_BIT (delete.rs:354, update.rs:1464): a tombstone whose stored values satisfy the
-       predicate is deleted again (counted, RETURNed, subtracted from row_count, its key removed
-       from the unique index) or updated -- and wrap_record_for_update writes a fresh header, so
-       the row is visible again;
-     * TRUNCATE reports the number of B-tree entries, tombstones included (ddl.rs:653);
-     * INSERT validates and writes row by row (insert.rs:547) and adds the statement's count to
-       row_count only after the loop: a row that fails leaves the earlier rows in the table and
-       row_count stale;
-     * WHERE pk = literal on a PRIMARY KEY table goes through the index (delete.rs:262,
-       update.rs:1135); UPDATE then takes a one-pass path (update.rs:1316, tables without
-       TEXT columns, literal assignments) which returns `returned: None` even with RETURNING;
-     * UPDATE applies the literal assignments first and evaluates assignments that mention a
-       column on the partly updated row (update.rs:1507-1536); arithmetic with a NULL operand
-       is an error there (eval_expr_with_row).
-   `fx = true` is the same mechanism with the proposed repairs (fixes/C05-*.diff, C06-*.diff):
-     scans skip tombstones, TRUNCATE counts live rows, a failing INSERT leaves nothing behind,
-     RETURNING works on the one-pass path, SET expressions see the old row, NULL arithmetic
-     yields NULL. *)
+   `step false` is the code AS IT IS (after the repairs 6de60fd, 42a3914, dd7107b, 00edbdb):
+     * DELETE / UPDATE collect their rows with a cursor that skips entries with DELETE_BIT
+       (is_tombstone), TRUNCATE reports the live rows, WHERE pk = literal on a PRIMARY KEY
+       table goes through the index (and falls back to the scan when the entry found is a
+       tombstone), UPDATE evaluates every SET expression on the old row with NULL-propagating
+       arithmetic and returns its RETURNING rows on every path;
+     * INSERT still validates and writes row by row (insert.rs:547) and adds the statement's
+       count to row_count only after the loop: a row that fails (constraint or type error)
+       leaves the earlier rows in the table and row_count stale (finding class 4).
+   `step true` differs only there: a failing INSERT leaves nothing behind (proposed repair).
+   The component functions keep their switch `fx`: do_delete / do_update / do_truncate /
+   select / new_row with fx = false describe the code BEFORE those repairs (tombstones
+   collected by the scans, revived by UPDATE and counted by TRUNCATE; one-pass UPDATE without
+   RETURNING rows; literal assignments visible to the other SET expressions; NULL arithmetic
+   an error); `step_old` assembles them and is only used to state what the repairs changed
+   (former_classes_repaired). *)
 From Coq Require Import ZArith List Bool.
 From TV Require Import Model.SqlSpec Model.DmlSpec.
 Import ListNotations.
@@ -257,9 +253,18 @@ Definition do_truncate (fx : bool) (st : tstate) : result * tstate :=
 Definition step (fx : bool) (sch : schema) (st : tstate) (s : stmt) : result * tstate :=
   match s with
   | SInsert rows ret => do_insert fx sch st rows ret
-  | SDelete w ret => do_delete fx sch st w ret
-  | SUpdate sets w ret => do_update fx sch st sets w ret
-  | STruncate => do_truncate fx st
+  | SDelete w ret => do_delete true sch st w ret
+  | SUpdate sets w ret => do_update true sch st sets w ret
+  | STruncate => do_truncate true st
+  | SMissing => (RErr, st)
+  end.
+(* the code before the repairs of DELETE / UPDATE / TRUNCATE *)
+Definition step_old (sch : schema) (st : tstate) (s : stmt) : result * tstate :=
+  match s with
+  | SInsert rows ret => do_insert false sch st rows ret
+  | SDelete w ret => do_delete false sch st w ret
+  | SUpdate sets w ret => do_update false sch st sets w ret
+  | STruncate => do_truncate false st
   | SMissing => (RErr, st)
   end.
 
@@ -276,16 +281,18 @@ Fixpoint run (fx : bool) (sch : schema) (st : tstate) (h : list stmt) : tstate :
   | s :: h' => run fx sch (snd (step fx sch st s)) h'
   end.
 
-(* ------------------------------------------------------------------ the recorded finding classes
+Fixpoint trace_old (sch : schema) (st : tstate) (h : list stmt) : list obs :=
+  match h with
+  | [] => []
+  | s :: h' => let (r, st') := step_old sch st s in obs_of r st' :: trace_old sch st' h'
+  end.
+
+(* ------------------------------------------------------------------ the recorded finding class
    (decidable, evaluated on the state the code-as-it-is model has reached):
-     1  DELETE whose row collection contains a tombstone
-     2  UPDATE whose row collection contains a tombstone
-     3  TRUNCATE of a table file that holds a tombstone
      4  INSERT that fails after it has written at least one row
-     5  UPDATE ... RETURNING on the one-pass primary-key path
-     6  UPDATE SET with a literal assignment to a column that another assignment reads
-     7  UPDATE SET arithmetic over a NULL column value of a selected row
-    -1  the statement is outside the modelled fragment (not a finding: nothing is claimed) *)
+    -1  the statement is outside the modelled fragment (not a finding: nothing is claimed)
+   (classes 1, 2, 3, 5, 6, 7 of the earlier tree -- tombstones in DELETE / UPDATE / TRUNCATE,
+   RETURNING on the one-pass path, SET evaluation order, NULL arithmetic -- are repaired) *)
 Definition reads_col (e : expr) (j : nat) : bool :=
   match e with
   | ECol i => Nat.eqb i j
@@ -306,17 +313,7 @@ Definition stmt_class (sch : schema) (st : tstate) (s : stmt) : Z :=
       | (false, _, n) => if 0 <? n then 4 else 0
       | _ => 0
       end
-  | SDelete w _ => if existsb e_del (select false sch w st) then 1 else 0
-  | SUpdate sets w ret =>
-      if existsb e_del (select false sch w st) then 2
-      else if ret && onepass sch sets w st then 5
-      else if sets_mix sets then 6
-      else match new_rows false sch sets (select false sch w st) with
-           | UEvalErr => 7
-           | _ => 0
-           end
-  | STruncate => if existsb e_del (ents st) then 3 else 0
-  | SMissing => 0
+  | _ => 0
   end
   end.
 (* the class of a history: the class of its first statement that is in one *)
